@@ -579,6 +579,8 @@ pub struct OriginModel {
     /// last_seq values declared by the chunks of a version
     pub last_seqs: BTreeMap<u64, BTreeSet<u64>>,
     pub max: u64,
+    /// versions for which an apply step ran while their coverage was ambiguous: held or still partial
+    pub undetermined: BTreeSet<u64>,
 }
 
 impl OriginModel {
@@ -608,26 +610,58 @@ impl OriginModel {
                 self.max = self.max.max(v);
                 if seqs.start().0 == 0 && seqs.end() == last_seq {
                     let _ = changes;
+                    // A changeset that is complete by its own last_seq, while earlier chunks declared a
+                    // larger one that is not covered yet (a relay reports the largest sequence still
+                    // live at the relay): the node may apply it now, or keep waiting for the rest.
+                    // Likewise if the chunks received so far already cover the version and only the
+                    // (asynchronous) apply step is outstanding: the node may ignore the redundant
+                    // changeset or apply it right away.  No demand is made about the version until an
+                    // apply step ran with full coverage (see World::apply).
+                    let has_partial_state = self.partial.contains_key(&v);
+                    let same_last_seq = self.last_seqs.get(&v).is_none_or(|ls| ls.iter().all(|l| *l == last_seq.0));
+                    let already_covered = self.covered(v);
+                    if has_partial_state && (!same_last_seq || already_covered) {
+                        self.partial.entry(v).or_default().insert(0..=last_seq.0);
+                        self.last_seqs.entry(v).or_default().insert(last_seq.0);
+                        self.undetermined.insert(v);
+                        return None;
+                    }
+                    self.undetermined.remove(&v);
                     self.held.insert(v);
                     // buffered leftovers are scheduled for clearing by the agent; the version is held now
                     self.partial.remove(&v);
                     return None;
                 }
+                let before_complete = self.covered(v);
                 let e = self.partial.entry(v).or_default();
-                let before_complete = self.last_seqs.get(&v).is_some_and(|ls| ls.iter().any(|l| e.gaps(&(0..=*l)).next().is_none()));
                 e.insert(seqs.start().0..=seqs.end().0);
                 self.last_seqs.entry(v).or_default().insert(last_seq.0);
-                let now_complete = self.last_seqs[&v].iter().any(|l| e.gaps(&(0..=*l)).next().is_none());
+                let now_complete = self.covered(v);
                 if now_complete && !before_complete { Some(v) } else { None }
             }
         }
     }
 
+    /// the received chunks cover 0..=last_seq for *every* last_seq a supplier declared (suppliers may
+    /// disagree: a relay reports the largest sequence still live at the relay)
     pub fn covered(&self, v: u64) -> bool {
         match (self.partial.get(&v), self.last_seqs.get(&v)) {
-            (Some(p), Some(ls)) => ls.iter().any(|l| p.gaps(&(0..=*l)).next().is_none()),
+            (Some(p), Some(ls)) => ls.iter().all(|l| p.gaps(&(0..=*l)).next().is_none()),
             _ => false,
         }
+    }
+
+    /// covered for some declared last_seq but not for all: whether the version counts as complete
+    /// depends on which declaration the node goes by; the oracles make no demand then
+    pub fn ambiguous(&self, v: u64) -> bool {
+        match (self.partial.get(&v), self.last_seqs.get(&v)) {
+            (Some(p), Some(ls)) => !self.covered(v) && ls.iter().any(|l| p.gaps(&(0..=*l)).next().is_none()),
+            _ => false,
+        }
+    }
+
+    pub fn any_ambiguous(&self) -> bool {
+        self.partial.keys().any(|v| self.ambiguous(*v)) || !self.undetermined.is_empty()
     }
 
     pub fn on_applied(&mut self, v: u64) {
@@ -664,6 +698,9 @@ pub fn check_advertised(state: &SyncStateV1, origin: ActorId, m: &OriginModel, o
         let in_partial = pn.is_some_and(|p| p.contains_key(&CrsqlDbVersion(v)));
         if in_need && in_partial {
             return Err(("one-class-only".into(), format!("v{v} is listed both as needed and as partial")));
+        }
+        if m.undetermined.contains(&v) || m.ambiguous(v) {
+            continue;
         }
         if own {
             if in_need || in_partial {
